@@ -1500,6 +1500,22 @@ func (e *wireExec) sigStep(s *XStep, w *wireTok, env *envelope) {
 				return
 			}
 		}
+		// ... and after all of them the victim's HONEST token still reads as what it is, its
+		// principals still print as themselves, and it seals to the same bytes (whatever the
+		// library remembers of several hundred principals)
+		o.Eval("C07")
+		hattrs := map[string]string{"alg": w.alg, "when": "after-churn"}
+		var htk token.Token
+		var herr error
+		guardT(o, "typed.FromSealed", len(w.cbor), false, func() { htk, _, herr = runDecoder("typed.FromSealed", w.spec.Kind, w.cbor) })
+		if herr != nil || isNilTok(htk) {
+			o.Violate("C07", "decode-not-repeatable", fmt.Sprintf("after %d other principals passed through the decoders, the honest token of the first one is refused: %v", n, herr), hattrs)
+		} else if w.content != "" && recOf(htk).Content() != w.content && !w.intFlt && !w.rawStr && !hasTopLevelNull(w.obj) {
+			o.Violate("C07", "field-changed", fmt.Sprintf("after %d other principals passed through the decoders, the honest token reads differently: %s", n, diffRec(recOf(w.obj), recOf(htk))), hattrs)
+		}
+		if now := recOf(w.obj).Content(); w.content != "" && now != w.content {
+			o.Violate("C07", "field-changed", fmt.Sprintf("after %d other principals were handled, the constructed token itself prints differently", n), hattrs)
+		}
 		return
 	case "did_url":
 		// iss is a DID URL: the victim's identifier followed by a fragment / query / path that names
